@@ -574,7 +574,12 @@ class Impl:
         self.g(op["id"]).addArray(op["ch"], wfm, self.v(op["SR"]), **kw)
 
     def op_el_addFlags(self, op):
-        self.g(op["id"]).addFlags(op["ch"], [self.v(x) for x in op["flags"]])
+        flags = [self.v(x) for x in op["flags"]]
+        if op.get("_as") in ("npint", "npuint8"):
+            # the same numbers taken from a numpy table (a row of an integer array)
+            cast = np.int64 if op["_as"] == "npint" else np.uint8
+            flags = [cast(f) if isinstance(f, int) and not isinstance(f, bool) else f for f in flags]
+        self.g(op["id"]).addFlags(op["ch"], flags)
 
     def op_el_validate(self, op):
         self.g(op["id"]).validateDurations()
